@@ -105,7 +105,9 @@ class C05(PureCheck):
             f = FmtStr()
             for t, a in inp["runs"]:
                 f = f + fmtstr(enc.dec_text(t), **enc.dec_atts(a))
-            if enc.WARM:
+            if enc.WARM & 256:
+                f = enc.build_fmtstr(enc.enc_fmtstr(f))      # the same runs, derived from a value that was rendered before
+            elif enc.WARM:
                 enc.warm(f, enc.WARM)
             s = str(f)
             ev["f"] = enc.enc_fmtstr(f)
